@@ -212,7 +212,8 @@ func (hm *HostsMap) rebuildMatchFiles() (matchFiles []*MatchFile) {
 			e1 := entryList[i]
 			e2 := entryList[j]
 			if e1.headers.equals(e2.headers) {
-				return e1.path > e2.path
+				// case insensitive, `begin` paths are always lower case
+				return strings.ToLower(e1.path) > strings.ToLower(e2.path)
 			}
 			return e1.hasFilter()
 		})
@@ -306,7 +307,7 @@ func overlaps(e1, e2 *HostsMapEntry) bool {
 		e1.path != e2.path &&
 		e1.match != MatchExact && e2.match != MatchExact &&
 		e1.match != MatchRegex && e2.match != MatchRegex &&
-		strings.HasPrefix(e1.path, e2.path)
+		strings.HasPrefix(strings.ToLower(e1.path), strings.ToLower(e2.path))
 }
 
 func findOrCreateMatchFileIfOverlaps(order *list.List, e1, e2 *HostsMapEntry) {
